@@ -359,7 +359,7 @@ HARNESSES = [
             wall_s=(300, 3000), max_paths=(150000, 5000000), outside=OUT),
     Harness("H01a-P", h01a, quick=dict(n=1, mode="P"), thorough=dict(n=2, mode="P"), pattern="P2 inductive step", requires=["accepted", "refused"],
             wall_s=(300, 3000), max_paths=(150000, 5000000), outside=OUT),
-    Harness("H01a-mkt", h01a, quick=dict(n=1, mode="S", market_limit=True, others=1, winners=(1,), sel_limit_too=False), thorough=dict(n=1, mode="S", market_limit=True, others=2),
+    Harness("H01a-mkt", h01a, quick=dict(n=1, mode="S", market_limit=True, others=1, winners=(1,), sel_limit_too=False), thorough=dict(n=1, mode="S", market_limit=True, others=1, winners=(1, 2), sel_limit_too=False),
             pattern="P2 inductive step", requires=["accepted", "refused"], wall_s=(300, 3000), max_paths=(150000, 5000000), outside=OUT),
     Harness("H01t", h01t, pattern="P3 short history (batching transaction -> real simulated execution)", requires=["accepted", "refused"], outside=OUT),
     Harness("H01u", h01u, quick=dict(K=4), thorough=dict(K=5), pattern="P3 bounded history (default controls, real simulated execution)",
